@@ -48,3 +48,28 @@ def run(cx):
         htcomp.run_ht(cx)
     if "life" in parts and c17life is not None:
         c17life.run_life(cx)
+
+
+def replay(cx, payload):
+    """re-run the failing history of a replay file (ht / dict histories here; api_life histories in c17life)"""
+    f = payload.get("failure") or {}
+    case = f.get("case") or {}
+    comp = f.get("component")
+    lines = []
+    if case.get("line"):
+        lines.append(case["line"])
+    for d in payload.get("first", []):
+        if d.get("component") == "ht":
+            comp = "ht"
+            lines.append(d["line"])
+    if comp in ("ht", "dict") and lines:
+        lines = ["%d %s" % (i, " ".join(l.split()[1:])) for i, l in enumerate(lines)]
+        ri, rm = cx.differential("ht", lines, htcomp.HARNESS, canon=lambda r: [x for x in r if x != "LEAK"])
+        for l in lines:
+            t = l.split()
+            if t[2] == "hist":
+                htcomp.hist_laws(cx, l, ri.get(t[0], ["err", "NoReply"]))
+            elif t[2] in ("dict", "dictf"):
+                htcomp.dict_laws(cx, l, ri.get(t[0], ["err", "NoReply"]), False)
+    elif c17life is not None and hasattr(c17life, "replay"):
+        c17life.replay(cx, payload)
